@@ -69,11 +69,16 @@ def _main_stream(rng, tier):
         if i % 2:
             X.add_variants(rng, prog, 0.6)
             ops = X.vary_disposals(rng, prog, ops)
+        if i % 4 == 1:
+            X.add_cleanups(rng, prog, 0.6)      # on_cleanup callbacks that read signals the body does not read
         yield dict(case=C.norm(X.with_flags(rng, prog, ops, 0.3 if i % 2 else 0)), kind="memos+effects", compare=True)
     for i in range(1000 if tier == "quick" else 10000):
         yield dict(case=C.norm(X.gen_zone_case(rng)), kind="zones", compare=True)
     for i in range(40 if tier == "quick" else 400):
         yield dict(case=C.norm(X.gen_wide_case(rng, rng.randint(17, 40), rng.choice([0, 1, 2, 3]))), kind="wide", compare=True)
+    # what an on_cleanup callback reads is never a reason to run
+    for i in range(800 if tier == "quick" else 8000):
+        yield dict(case=C.norm(X.gen_cleanup_case(rng)), kind="cleanup", compare=True)
     # operations that are NOT writes (maybe_update returning false, write().untrack(), ...): nothing may run
     for i in range(1500 if tier == "quick" else 15000):
         prog = X.gen_program(rng, rng.randint(3, 9), rng.choice([0, 1, 1, 2]), allow_wr=False, p_always=0.15)
